@@ -243,6 +243,8 @@ pub struct RefStoreInner {
     pub empty_ok: bool,
     /// injected fault byte 0 is returned as Ctap1(Success) instead of what the byte decodes to
     pub zero_as_ctap1_success: bool,
+    /// a lagging lookup index: lookups only see the first n records (what was held when the lag was set)
+    pub lag: Option<usize>,
 }
 
 /// Reference credential store with the documented contract semantics:
@@ -252,7 +254,7 @@ pub struct RefStore(pub Arc<Mutex<RefStoreInner>>);
 
 impl RefStore {
     pub fn new(disc: Disc) -> Self {
-        RefStore(Arc::new(Mutex::new(RefStoreInner { creds: vec![], log: vec![], disc, faults: BTreeMap::new(), fallible_calls: 0, yields: 0, version: 0, empty_ok: false, zero_as_ctap1_success: false })))
+        RefStore(Arc::new(Mutex::new(RefStoreInner { creds: vec![], log: vec![], disc, faults: BTreeMap::new(), fallible_calls: 0, yields: 0, version: 0, empty_ok: false, zero_as_ctap1_success: false, lag: None })))
     }
     pub fn with(disc: Disc, creds: Vec<Passkey>) -> Self {
         let s = Self::new(disc);
@@ -273,6 +275,11 @@ impl RefStore {
         let mut g = self.0.lock().unwrap();
         g.faults = f;
         g.fallible_calls = 0;
+    }
+    /// lookups keep seeing only what is held now (records saved later stay invisible to them)
+    pub fn set_lagging(&self, on: bool) {
+        let mut g = self.0.lock().unwrap();
+        g.lag = on.then_some(g.creds.len());
     }
     pub fn set_empty_ok(&self, on: bool) {
         self.0.lock().unwrap().empty_ok = on;
@@ -334,7 +341,8 @@ impl CredentialStore for RefStore {
             return Err(self.status(b));
         }
         let mut g = self.0.lock().unwrap();
-        let found: Vec<Passkey> = contract_find(&g.creds, idv.as_deref(), rp_id).into_iter().cloned().collect();
+        let visible = g.lag.map_or(g.creds.len(), |n| n.min(g.creds.len()));
+        let found: Vec<Passkey> = contract_find(&g.creds[..visible], idv.as_deref(), rp_id).into_iter().cloned().collect();
         let ret_ids = found.iter().map(|c| c.credential_id.to_vec()).collect();
         g.log.push(StoreCall::Find { ids: idv, rp_id: rp_id.to_string(), returned: Ok(ret_ids) });
         if found.is_empty() && !g.empty_ok {
